@@ -475,7 +475,7 @@ func init() {
 	engine.Register(engine.Spec[Case]{
 		ID:    "C05",
 		Level: "exploration",
-		Rule: "two finite products enumerated completely: (A) {15 assignment operators} x 10 target kinds x 27 operands (9 types x {literal, local, predefined}) and {8 comparison operators} x 27 x 27 operands; (B) every entry of predefined.yml x {get, set, set of a read-only variable, unset} and every entry of builtin.yml x every signature and the scope-restricted statements (restart, error, esi, synthetic, synthetic.base64, 9 return actions) x the 9 scopes and all 36 two-scope annotations. Each cell is a minimal program; the linter's ERROR diagnostics on the use line are compared with the YAML tables read from /repo at run time (B) or with the committed operator matrix (A), and every accepted cell is executed in each of its scopes on the real interpreter: no crash and no error of the contract classes (undefined / out of scope / not callable / argument count or type / assignment type). non-trivial = every cell that parses; distinct = distinct program Round 3: the operands include signed literals, signed locals and signed predefined variables (INTEGER / FLOAT / RTIME).",
+		Rule: "two finite products enumerated completely: (A) {15 assignment operators} x 10 target kinds x 27 operands (9 types x {literal, local, predefined}) and {8 comparison operators} x 27 x 27 operands; (B) every entry of predefined.yml x {get, set, set of a read-only variable, unset} and every entry of builtin.yml x every signature and the scope-restricted statements (restart, error, esi, synthetic, synthetic.base64, 9 return actions) x the 9 scopes and all 36 two-scope annotations. Each cell is a minimal program; the linter's ERROR diagnostics on the use line are compared with the YAML tables read from /repo at run time (B) or with the committed operator matrix (A), and every accepted cell is executed in each of its scopes on the real interpreter: no crash and no error of the contract classes (undefined / out of scope / not callable / argument count or type / assignment type). non-trivial = every cell that parses; distinct = distinct program Round 3: the operands include signed literals, signed locals and signed predefined variables (INTEGER / FLOAT / RTIME). Round 4: every single-scope read that the tables do not allow is repeated behind a subroutine of an allowed scope that reads the same variable.",
 		Gen:  gen05,
 		Key:  func(c Case) string { p, _ := program(c); return p },
 		Run:  run,
